@@ -185,7 +185,12 @@ pub fn gen_file(rng: &mut Rng, format: Format, protein: bool, n_records: usize) 
     }
     for r in 0..n_records {
         let w = if rng.chance(0.03) { rng.range(99, 135) } else if rng.chance(0.1) { rng.range(30, 40) } else { rng.range(1, 16) };
-        let id = word(rng, 1, 12);
+        let mut id = word(rng, 1, 12);
+        if format != Format::Uniprobe && rng.chance(0.04) {
+            // identifiers are delimited by ASCII white space only: NBSP, ideographic space and accented
+            // letters belong to the identifier
+            id.push_str(*rng.pick(&["\u{a0}5", "\u{e9}", "\u{3000}x", "\u{2009}1"]));
+        }
         let desc = if rng.chance(0.7) { Some(phrase(rng)) } else { None };
         match format {
             Format::Jaspar => {
